@@ -22,10 +22,10 @@ class Env(Environment):
 
 
 PARTIALS = {
-    "p": "<{{ v }}>",
+    "p": "<{{ v }}{{ forloop.index }}{{ forloop.parentloop.index }}{{ forloop.length }}>",
     "rec": "{{ d }}{% if d < n %}{% assign d = d | plus: 1 %}{% include 'rec' %}{% endif %}",
     "rrec": "{{ d }}{% if d < n %}{% assign e = d | plus: 1 %}{% render 'rrec', d: e, n: n %}{% endif %}",
-    "ploop": "{% for j in ys %}{{ j }}{% endfor %}",
+    "ploop": "{% for j in ys %}{{ j }}{{ forloop.parentloop.index }}{{ forloop.parentloop.length }}{{ forloop.index }}{{ forloop.length }}{% endfor %}{{ forloop.index }}",
     "base": "[{% block b %}{% for i in xs %}b{% endfor %}{% endblock %}]",
 }
 ENV = Env(extra=True, loader=CachingDictLoader(PARTIALS, auto_reload=False))
@@ -33,20 +33,22 @@ for _p in PARTIALS:
     ENV.get_template(_p)
 
 SKEL = {
-    "nested_loops": "{% for i in xs %}{% for j in ys %}{{ i }}{{ j }}{% endfor %};{% endfor %}",
-    "tablerow_loop": "{% tablerow i in xs cols: 2 %}{% for j in ys %}{{ j }}{% endfor %}{% endtablerow %}",
+    "nested_loops": "{% for i in xs %}{% for j in ys %}{{ i }}{{ j }}{{ forloop.parentloop.index }}{{ forloop.parentloop.length }}{{ forloop.rindex }}{% endfor %};{% endfor %}",
+    "tablerow_loop": "{% tablerow i in xs cols: 2 %}{% for j in ys %}{{ j }}{{ forloop.parentloop.index }}{{ tablerowloop.col }}{{ forloop.length }}{% endfor %}{% endtablerow %}",
     "capture_loop": "{% for i in xs %}{% capture c %}{{ c }}{{ i }}{% endcapture %}{% endfor %}{{ c }}",
     "assigns": "{% assign a = v %}{% for i in xs %}{% assign b = i %}{{ a }}{{ b }}{% endfor %}",
     "include_rec": "{% assign d = 0 %}{% assign n = m %}{% include 'rec' %}",
     "render_rec": "{% render 'rrec', d: 0, n: m %}",
     "render_for_loop": "{% render 'ploop' for xs, ys: ys %}",
+    "render_for_in_for": "{% for i in ys %}{% render 'ploop' for xs, ys: ys %}{% render 'p' for xs as v %}{% endfor %}",
+    "include_for_in_for": "{% for i in ys %}{% include 'ploop' for xs %}{% include 'p' for xs as v %}{% endfor %}",
     "include_for": "{% include 'p' for xs %}{% for i in ys %}{% include 'p', v: i %}{% endfor %}",
     "extends": "{% extends 'base' %}{% block b %}{{ block.super }}{% for j in ys %}c{% endfor %}{% endblock %}",
     "ifchanged_cycle": "{% for i in xs %}{% ifchanged %}{{ v }}{% endifchanged %}{% cycle 'a', 'b' %}{% endfor %}",
     "capture_unused": "{{ v }}{% capture c %}{% for i in xs %}{{ v }}{% endfor %}abc{% endcapture %}{% if m > 5 %}{{ c }}{% endif %}",
     "ifchanged_unused": "{{ v }}{% for i in ys %}{% ifchanged %}{% endifchanged %}{% capture d %}{{ v }}{{ i }}{% endcapture %}{% endfor %}",
     "super_unused": "{% extends 'base' %}{% block b %}{% capture s %}{{ block.super }}{{ v }}{% endcapture %}z{% endblock %}",
-    "macro_loop": "{% macro f, q %}{% for j in ys %}{{ q }}{% endfor %}{% endmacro %}{% for i in xs %}{% call f, i %}{% endfor %}",
+    "macro_loop": "{% macro f, q %}{% for j in ys %}{{ q }}{{ forloop.parentloop.index }}{{ forloop.index }}{% endfor %}{% endmacro %}{% for i in xs %}{% call f, i %}{% endfor %}",
 }
 T = {k: ENV.from_string(v) for k, v in SKEL.items()}
 
@@ -118,7 +120,7 @@ def _mk(kind, skel):
 
 
 CONDITIONS = []
-_QUICK = {("loop", "nested_loops"), ("loop", "tablerow_loop"), ("loop", "render_for_loop"), ("loop", "macro_loop"), ("loop", "include_for"),
+_QUICK = {("loop", "render_for_in_for"), ("loop", "include_for_in_for"), ("output", "render_for_in_for"), ("depth", "render_for_in_for"), ("loop", "nested_loops"), ("loop", "tablerow_loop"), ("loop", "render_for_loop"), ("loop", "macro_loop"), ("loop", "include_for"),
           ("output", "capture_loop"), ("output", "capture_unused"), ("output", "ifchanged_unused"), ("output", "super_unused"), ("output", "nested_loops"), ("output", "include_rec"), ("output", "extends"), ("output", "ifchanged_cycle"),
           ("namespace", "assigns"), ("namespace", "capture_loop"), ("namespace", "render_rec"), ("namespace", "include_rec"),
           ("depth", "include_rec"), ("depth", "render_rec"), ("depth", "nested_loops"), ("depth", "extends"), ("depth", "macro_loop")}
